@@ -81,7 +81,9 @@ def lookup_rule(chk, name, fm):
     st = call
     while not isinstance(st, ast.stmt):
         st = parent(st)
-    Rn = norm(st.targets[0]) if isinstance(st, ast.Assign) and isinstance(st.targets[0], ast.Name) else None
+    # (only when the name holds the position itself; `idx = int(searchsorted(..)) - 1` is an expression in R like any other)
+    Rn = norm(st.targets[0]) if isinstance(st, ast.Assign) and isinstance(st.targets[0], ast.Name) \
+        and norm(st.value) in (norm(call), f"int({norm(call)})") else None
     stop = tuple(x for x in (Rn, sv, LK) if x)
 
     def term(e):
